@@ -17,7 +17,15 @@ missing = [t for t in base["stable_pass"] if t not in passed]
 if 0 < len(missing) <= 8:
     # load-sensitive tests (wall-clock assertions, 5 s websocket timeouts) fail under -n 8 on a busy machine:
     # re-run the files of the missing tests serially once and count what passes then
-    files = sorted({t.split("::")[0].rsplit(".", 1)[0].replace(".", "/") + ".py" for t in missing})
+    repo_dir = os.environ.get("REPO_DIR", "/repo")
+    def test_file(t):
+        mod = t.split("::")[0]
+        for cand in (mod, mod.rsplit(".", 1)[0]):   # module-level tests: classname is the module; methods: module.Class
+            f = cand.replace(".", "/") + ".py"
+            if os.path.exists(os.path.join(repo_dir, f)):
+                return f
+        return mod.replace(".", "/") + ".py"
+    files = sorted({test_file(t) for t in missing})
     out2 = tempfile.mktemp(suffix=".xml", dir="/var/tmp")
     subprocess.run(["/venv/bin/python", "-m", "pytest", "-q", "-p", "no:cacheprovider", "--timeout=900", f"--junitxml={out2}"] + files,
                    cwd=os.environ.get("REPO_DIR", "/repo"), env=env, stdout=subprocess.DEVNULL, stderr=subprocess.DEVNULL)
